@@ -110,10 +110,13 @@ class EventDispatcher:
             self._event_queue.append((event_name, args, kwargs))
             return
 
-        # Existance of the referents shall be guaranteed by the
-        # automatic cleanup
+        # Iterate a snapshot, as callbacks may add or remove handlers.
+        # A handler may also be garbage collected because of an earlier
+        # callback of this same dispatch: skip dead references.
         for handler_ref, method_ref in set(self._events[event_name]):
-            method_ref(handler_ref(), *args, **kwargs)
+            handler = handler_ref()
+            if handler is not None:
+                method_ref(handler, *args, **kwargs)
 
     @property
     def dispatch_enabled(self) -> bool:
